@@ -225,6 +225,42 @@ def validate(c, traces, meta, own, chunk=6000, label="L1"):
     return other
 
 
+def validator_sensitivity(c, traces):
+    """Binding demonstration: recorded executions of the real code, corrupted in one place each, must be REJECTED by the trace
+    validation (and the untouched recording accepted) - otherwise the validator constrains nothing and the check is void."""
+    import copy
+    base = None
+    for t in traces:
+        ys = [k for k, e in enumerate(t) if e.get("ev") == "Yield"]
+        subs = [k for k, e in enumerate(t) if e.get("ev") == "Submit"]
+        ends = [e for e in t if e.get("ev") == "End"]
+        cs = [e for e in t if e.get("ev") == "CallStart"]
+        if len(cs) == 1 and cs[0].get("mode") == "list" and len(ys) >= 3 and len(subs) >= 2 and ends and ends[-1].get("kind") == "returned" and cs[0].get("nj", 1) > 1:
+            base = t; break
+    if base is None: raise tlc.TLCError("validator sensitivity: no plain recorded execution to corrupt")
+    ys = [k for k, e in enumerate(base) if e.get("ev") == "Yield"]
+    variants = [("untouched", base)]
+    v = copy.deepcopy(base); v[ys[0]], v[ys[1]] = v[ys[1]], v[ys[0]]; variants.append(("two results swapped", v))
+    k = [k for k, e in enumerate(base) if e.get("ev") == "Submit"][-1]
+    v = copy.deepcopy(base); del v[k]; variants.append(("one Submit removed", v))
+    v = copy.deepcopy(base); del v[ys[-1]]; variants.append(("last result removed", v))
+    k = [k for k, e in enumerate(base) if e.get("ev") == "TStart"][0]
+    v = copy.deepcopy(base); v.insert(k + 1, dict(base[k])); variants.append(("one task started twice", v))
+    v = copy.deepcopy(base)
+    for e in v:
+        if e.get("ev") == "End": e["kind"] = "raised_task"; e["i"] = 0
+    variants.append(("outcome changed to a task error", v))
+    r, rej = tlc.validate_traces("ParallelTrace", "ParallelTrace.cfg", [t for _, t in variants])
+    c.add_tlc("trace-validation sensitivity", r)
+    out = {}
+    for k, (name, _) in enumerate(variants):
+        out[name] = rej[k][1] if k in rej else "accepted"
+    if out["untouched"] != "accepted": raise tlc.TLCError("validator sensitivity: the untouched recording is rejected (%s)" % out["untouched"])
+    bad = [n for n, v in out.items() if n != "untouched" and v == "accepted"]
+    if bad: raise tlc.TLCError("trace validation lost its sensitivity: corrupted recordings accepted: %s" % bad)
+    c.extra["validator_sensitivity"] = out
+
+
 def _short(cfg):
     return {k: (list(v) if isinstance(v, (set, tuple)) else v) for k, v in cfg.items() if k != "gap"}
 
